@@ -112,9 +112,21 @@ impl<'a> Layer<'a> {
     /// Returns if this layer is visible. This requires that this layer and all
     /// of its parent layers are visible.
     pub fn is_visible(&self) -> bool {
-        let layer_is_visible = self.data().flags.contains(LayerFlags::VISIBLE);
-        let parent_is_visible = self.parent().map(|p| p.is_visible()).unwrap_or(true);
-        layer_is_visible && parent_is_visible
+        // Walk up the chain of parents iteratively: deeply nested groups must
+        // not exhaust the stack.
+        let mut layer_id = self.layer_id;
+        loop {
+            if !self.file.layers[layer_id]
+                .flags
+                .contains(LayerFlags::VISIBLE)
+            {
+                return false;
+            }
+            match self.file.layers.parents[layer_id as usize] {
+                Some(parent_id) => layer_id = parent_id,
+                None => return true,
+            }
+        }
     }
 
     /// Get a reference to the Cel for this frame in the layer.
